@@ -353,7 +353,7 @@ func (s *server) deliver(st *sim.Step, idx int) *delivery {
 	if st.Actor == "server" && st.Op == "neighbour" {
 		// not an operation on this hand at all: only the oracles that
 		// compare states run on it
-		d.pan = s.neighbour()
+		d.pan = s.neighbour(arg0(st) == 1)
 		d.neighbour = true
 		if s.warm != nil {
 			d.post = s.warm.GetState()
@@ -423,24 +423,16 @@ func (s *server) probeClone() pokerface.Game {
 	return pokerface.NewGameFromState(fromJSON(s.durable))
 }
 
-// neighbour starts (and deals) another hand with the same options in the same
-// process, the way a table server hosts many tables; nothing of it may show
-// in this hand.
-func (s *server) neighbour() (pan string) {
+// neighbour plays another complete hand in the same process, the way a table
+// server hosts many tables: same options and the same deck order (so that
+// anything keyed by cards collides), with this hand's ranking table or - when
+// other is set - the other one. Nothing of it may show in this hand.
+func (s *server) neighbour(other bool) (pan string) {
 	defer func() {
 		if r := recover(); r != nil {
 			pan = fmt.Sprint(r)
 		}
 	}()
-	g := pokerface.NewGame(s.cfg.Options())
-	if err := g.Start(); err != nil {
-		return ""
-	}
-	g.ReadyForAll()
-	if s.cfg.Ante > 0 {
-		g.PayAnte()
-	}
-	g.PayBlinds()
-	g.ReadyForAll()
+	playPassiveHand(s.cfg, other)
 	return ""
 }
